@@ -85,6 +85,24 @@ def build_host(case, variant):
         def __call__(self, request):
             return Response('z')
     routes = [('/', ep_plain), ('/args/<x>', lambda x: Response(x)), ('/c', Callable())]
+    # endpoints (function, method, callable object) that TAKE a secret-named resource as an argument, required or defaulted
+    for k, (name, kind) in enumerate(case['secrets']):
+        style = case.get('consumers', [None] * 8)[k % 8]
+        if style is None:
+            continue
+        ns = {'Response': Response}
+        if style == 'function':
+            exec('def ep(request, %s):\n    return Response("s")\n' % name, ns)
+            routes.append(('/consume%d' % k, ns['ep']))
+        elif style == 'default':
+            exec('def ep(%s=None, q=5):\n    return Response("s")\n' % name, ns)
+            routes.append(('/consume%d' % k, ns['ep']))
+        elif style == 'method':
+            exec('class K(object):\n    def m(self, %s):\n        return Response("s")\n' % name, ns)
+            routes.append(('/consume%d' % k, ns['K']().m))
+        elif style == 'callable':
+            exec('class K(object):\n    def __call__(self, %s, request):\n        return Response("s")\n' % name, ns)
+            routes.append(('/consume%d' % k, ns['K']()))
     if 'db' in resources or case['getparam_mw']:
         routes.append(('/withargs', ep_args))
     if case['static']:
@@ -98,7 +116,7 @@ def build_host(case, variant):
         app = Application(routes, resources=resources, middlewares=mws)
     else:
         # the host application is the one that SERVES the request: resources and middlewares live on the outermost one
-        inner = Application([(case['prefix'], meta)] + routes)
+        inner = Application([(case['prefix'], meta)] + routes, resources=resources)    # its endpoints need them to be constructible
         mid = Application([('/mid', inner)]) if depth == 2 else inner
         app = Application([('/outer', mid)], resources=resources, middlewares=mws)
     base = ('/outer' if depth >= 1 else '') + ('/mid' if depth == 2 else '') + case['prefix'].rstrip('/')
@@ -171,7 +189,8 @@ def gen_case(rng, tier):
     for n in rng.sample(PLAIN_NAMES, rng.choice([0, 1, 2, 4])):
         plain.append([n, rng.choice([['str', 'value-of-' + n], ['num', 12345], ['long'], ['list'], ['markup'],
                                      ['badrepr'] if rng.random() < 0.15 else ['str', 'v']])])
-    return {'secrets': secrets, 'plain': plain, 'cookie_mw': rng.random() < 0.6, 'getparam_mw': rng.random() < 0.3,
+    return {'consumers': [rng.choice([None, 'function', 'default', 'method', 'callable']) for _ in range(8)],
+            'secrets': secrets, 'plain': plain, 'cookie_mw': rng.random() < 0.6, 'getparam_mw': rng.random() < 0.3,
             'static': rng.random() < 0.3, 'embedded_app': rng.random() < 0.3, 'meta_depth': rng.choice([0, 0, 1, 2]),
             'prefix': rng.choice(PREFIXES)}
 
@@ -187,7 +206,7 @@ def run(rep, b, tier, seed, only_cases=None):
     cases = list(only_cases) if only_cases is not None else corpus + [gen_case(rng, tier) for _ in range(120 if tier == 'quick' else 1200)]
     rep.rule = ('metalab: host applications with 0-3 secret-named resources (%d names: prefix/infix/suffix; values: strings, bytes, '
                 'numbers, nested containers, objects whose repr contains the secret) and 0-4 other resources (incl. names that differ in '
-                'case, long values, markup, objects whose repr raises), routes of several endpoint kinds, a static route, an embedded '
+                'case, long values, markup, objects whose repr raises), routes of several endpoint kinds (incl. functions, methods and callable objects that take a secret-named resource as a required or defaulted argument), a static route, an embedded '
                 'application, SignedCookie (known key) and GetParam middlewares; meta mounted at %d prefixes, directly or embedded one '
                 'or two levels deep; for every configuration TWO hosts that differ only in secret values and signing keys are built and '
                 'their HTML and JSON views fetched. non-trivial = configurations with a secret-named resource.'
